@@ -9,6 +9,7 @@ CONSTANTS
   TimeoutSignals = FALSE
   SkipOnErr = TRUE
   ReportRetry = TRUE
+  ReportClaim = "swap"
   DeadlineArmed = TRUE
   AllowClose = FALSE
   AllowRecon = FALSE
